@@ -201,6 +201,7 @@ func properties() map[string]*PropertySpec {
 				out = instLS("H_C10_pre", allLangs(), counts0to27())
 			} else {
 				out = instLS("H_C10_pre", []int64{2, 5, 6}, []int64{0, 1, 11, 12, 13, 15, 18, 21, 24, 25})
+				out = append(out, instLS("H_C10_pre", []int64{0, 1}, []int64{12, 24})...)
 			}
 			ns := []int64{12}
 			if tier == "thorough" {
@@ -209,10 +210,16 @@ func properties() map[string]*PropertySpec {
 			for _, f := range []int64{1, 2, 3, 5} {
 				out = append(out, instLS("H_C10_spelled", allLangs(), ns, f)...)
 			}
+			if tier == "thorough" {
+				out = append(out, instLS("H_C10_spelled", []int64{0, 1, 5, 6}, ns, 9)...)
+			}
 			if tier != "thorough" {
 				// the scripts whose NFKD form is much longer than the typed form, at the long sizes
 				out = append(out, instLS("H_C10_spelled", []int64{5, 6}, []int64{18, 24}, 1)...)
 				out = append(out, instLS("H_C10_spelled", []int64{5, 6}, []int64{24}, 3)...)
+				out = append(out, instLS("H_C10_spelled", []int64{5, 6}, []int64{24}, 2)...)
+				// compatibility twins (CJK compatibility ideographs, radicals, compatibility jamo, half-width kana)
+				out = append(out, instLS("H_C10_spelled", []int64{0, 1, 5, 6}, []int64{12}, 9)...)
 			}
 			return out
 		},
@@ -266,8 +273,11 @@ func properties() map[string]*PropertySpec {
 		Instances: func(tier string) []*Instance {
 			var out []*Instance
 			if tier == "thorough" {
-				out = instLS("H_C13_entropy", allLangs(), sizesL, 2)
-				out = append(out, instLS("H_C13_check", allLangs(), []int64{11, 12, 15, 18, 21, 24}, 2)...)
+				// two symbolic earlier first-uses for English/Japanese at the smallest size, one elsewhere
+				out = instLS("H_C13_entropy", allLangs(), sizesL, 1)
+				out = append(out, instLS("H_C13_entropy", []int64{2, 5}, []int64{16}, 2)...)
+				out = append(out, instLS("H_C13_check", allLangs(), []int64{11, 12, 15, 18, 21, 24}, 1)...)
+				out = append(out, instLS("H_C13_check", []int64{2, 5}, []int64{12}, 2)...)
 			} else {
 				out = instLS("H_C13_entropy", allLangs(), []int64{16}, 1)
 				out = append(out, instLS("H_C13_check", allLangs(), []int64{12}, 1)...)
@@ -293,7 +303,7 @@ func properties() map[string]*PropertySpec {
 			}
 			return out
 		},
-		Bounds:  []string{"history = up to two earlier first uses of arbitrary languages (symbolic, incl. none/unsupported) then the call, then a second call", "plus footprint induction: every path of every exported call writes only the once/map pair of its own language", "sizes: quick 16-byte entropy / 12 tokens, thorough all sizes"},
+		Bounds:  []string{"history = one earlier first use of an arbitrary language (symbolic, incl. none/unsupported; thorough: two for English/Japanese at the smallest size) then the call, then further calls", "plus footprint induction: every path of every exported call writes only the once/map pair of its own language", "sizes: quick 16-byte entropy / 12 tokens, thorough all sizes"},
 		Outside: []string{"histories are covered through the footprint argument, not enumerated"},
 		Stubs:   []string{stubSHA, stubBig, stubStr, stubNFKD, stubOnce, stubK},
 		Post:    c13Post,
@@ -1087,6 +1097,11 @@ func main() {
 		solvers := []string{"z3-new"}
 		if s := os.Getenv("VERIF_SOLVERS"); s != "" {
 			solvers = strings.Split(s, ",")
+		}
+		if b := os.Getenv("VERIF_BUDGET_S"); b != "" {
+			if v, err := strconv.Atoi(b); err == nil {
+				instWallBudget = float64(v)
+			}
 		}
 		to := 60000
 		if t := os.Getenv("VERIF_TIMEOUT_MS"); t != "" {
